@@ -91,7 +91,7 @@ fn judge<T: Inspect, E>(r: Result<T, E>, input: &[u8]) -> Out {
     }
 }
 
-type Call = fn(&[u8]) -> Out;
+pub type Call = fn(&[u8]) -> Out;
 
 macro_rules! table {
     ($name:ident, $dec:expr; $( $label:literal => $t:ty ),* $(,)?) => {
@@ -296,6 +296,53 @@ fn thread_cpu_s() -> f64 {
     ts.tv_sec as f64 + ts.tv_nsec as f64 * 1e-9
 }
 
+/// all target types of one decoder on one input, judged by the monitors (shared by the generated workload and by the coverage-guided one)
+pub fn run_input(rep: &mut Report, case: u64, dname: &str, table: &[(&'static str, Call)], input: &[u8], iclass: &str, small: bool) {
+    // every target type of the decoder on this input (Miri: a rotating subset)
+    for (k, (tname, call)) in table.iter().enumerate() {
+        if small && (k as u64).wrapping_add(case) % 6 != 0 && iclass != "witness" {
+            continue;
+        }
+        // debug builds carry `assert!(self.side == ..)` guards against target types the format cannot represent (a scalar at top level,
+        // a map as a value): they fire on the type, not on the bytes, and do not exist in release builds; not the property's subject
+        if cfg!(debug_assertions) && (tname.starts_with("top:") || *tname == "F<F<u8>>") && dname != "multipart" {
+            continue;
+        }
+        rep.eval();
+        CALL_STARTED_MS.store(now_ms(), Ordering::SeqCst);
+        let t0 = thread_cpu_s();
+        let r = catch(|| call(input));
+        let dt = thread_cpu_s() - t0;
+        CALL_STARTED_MS.store(0, Ordering::SeqCst);
+        let oc = match &r { Ok(Out::Ok) => "ok", Ok(Out::Err) => "err", Ok(Out::Problem(_)) => "problem", Err(_) => "panic" };
+        rep.count(&format!("{dname}:{oc}"));
+        rep.distinct(&format!("{dname}:{tname}:{oc}:{iclass}"));
+        let cj = || json!({"case_index": case, "decoder": dname, "target": tname, "input": crate::rng::show(input), "input_hex": crate::rng::hex(input), "input_class": iclass});
+        match r {
+            Err(p) => rep.violation(&format!("C08/panic:{dname}@{}", crate::report::panic_site(&p)), &format!("{dname} into {tname} panicked on {}: {p}", crate::rng::show(input)), cj()),
+            Ok(Out::Problem(ps)) => rep.violation(&format!("C08/bad-value:{dname}:{}", if ps[0].contains("UTF-8") { "non-utf8-string" } else { "slice-outside-input" }), &format!("{dname} into {tname} on {}: {}", crate::rng::show(input), ps[0]), cj()),
+            _ => {}
+        }
+        if dt > 2.0 && input.len() <= 4096 {
+            // CPU time of this thread, not wall time; and it only counts if three more measurements of the same call agree
+            rep.count("slow_calls_remeasured");
+            let again: Vec<f64> = (0..3).map(|_| { let t = thread_cpu_s(); let _ = catch(|| call(input)); thread_cpu_s() - t }).collect();
+            let least = again.iter().cloned().fold(f64::MAX, f64::min);
+            if least > 2.0 {
+                rep.violation(&format!("C08/slow:{dname}"), &format!("{dname} into {tname} took {dt:.1}s of CPU time on {} bytes (re-measured: {again:.1?})", input.len()), cj());
+            }
+        }
+        if rep.want_sample() && oc == "err" && iclass == "mutant" {
+            rep.sample(json!({"decoder": dname, "target": tname, "input": crate::rng::show(input), "outcome": oc}));
+        }
+    }
+}
+
+/// decoder tables by name, for harness/src/fuzz.rs
+pub fn tables() -> Vec<(&'static str, Vec<(&'static str, Call)>)> {
+    vec![("urlencoded", urlencoded_table()), ("cookie", cookie_table()), ("multipart", multipart_table()), ("other", other_table())]
+}
+
 pub fn run(args: &Args, rep: &mut Report) {
     let small = args.flag("small").is_some();
     if !small {
@@ -310,6 +357,22 @@ pub fn run(args: &Args, rep: &mut Report) {
         start_watchdog(20_000);
     }
     let tables: Vec<(&str, Vec<(&'static str, Call)>)> = vec![("urlencoded", urlencoded_table()), ("cookie", cookie_table()), ("multipart", multipart_table()), ("other", other_table())];
+    if args.shard == 0 && args.start == 0 {
+        // witnesses of the repaired findings (and of inputs seeded changes needed), whatever the seed
+        let w: [(&str, &[u8]); 9] = [
+            ("urlencoded", b"x=1=2"), ("urlencoded", b"x=%FF&y"), ("cookie", b"x=%FF"), ("cookie", b"x=\""), ("cookie", b"x=\"; y=\"\""),
+            ("multipart", b"--b\r\nContent-Disposition: form-data; name=\"x\"; filename=\"\"\r\nContent-Type: application/octet-stream\r\n\r\n\r\n--b--\r\n"),
+            ("multipart", b"--b\r\nContent-Disposition: form-data; name=\"x\"\r\n\r\n--b--\r\n"),
+            ("other", b"aaaaaaaaaaaaaaaaaaaaaaaaaaaaaaaaaaaaaaaaaaaa; Max-Age=x; Max-Age=99999999999999999999999999"),
+            ("other", b"aaaaaaaaaaaa; Max-Age=\"7\""),
+        ];
+        for (k, (d, input)) in w.iter().enumerate() {
+            let (dname, table) = tables.iter().find(|(n, _)| n == d).unwrap();
+            rep.begin_with(u64::MAX - k as u64, json!({"decoder": dname, "input_hex": crate::rng::hex(input)}));
+            run_input(rep, u64::MAX - k as u64, dname, table, input, "witness", small);
+            rep.end(u64::MAX - k as u64);
+        }
+    }
     let mut case = args.shard;
     while case < args.budget {
         if case >= args.start {
@@ -322,44 +385,7 @@ pub fn run(args: &Args, rep: &mut Report) {
                 _ => { let (v, c) = gen_kv_input(&mut rng, b"; "); if rng.bool() { (v.into_iter().skip_while(|_| false).collect(), c) } else { ({ let n = rng.below(40); rng.bytes(n) }, "random-bytes") } }
             };
             rep.begin_with(case, json!({"decoder": dname, "input_hex": crate::rng::hex(&input)}));
-            // every target type of the decoder on this input (Miri: a rotating subset)
-            for (k, (tname, call)) in table.iter().enumerate() {
-                if small && (k as u64 + case) % 6 != 0 {
-                    continue;
-                }
-                // debug builds carry `assert!(self.side == ..)` guards against target types the format cannot represent (a scalar at top level,
-                // a map as a value): they fire on the type, not on the bytes, and do not exist in release builds; not the property's subject
-                if cfg!(debug_assertions) && (tname.starts_with("top:") || *tname == "F<F<u8>>") && *dname != "multipart" {
-                    continue;
-                }
-                rep.eval();
-                CALL_STARTED_MS.store(now_ms(), Ordering::SeqCst);
-                let t0 = thread_cpu_s();
-                let r = catch(|| call(&input));
-                let dt = thread_cpu_s() - t0;
-                CALL_STARTED_MS.store(0, Ordering::SeqCst);
-                let oc = match &r { Ok(Out::Ok) => "ok", Ok(Out::Err) => "err", Ok(Out::Problem(_)) => "problem", Err(_) => "panic" };
-                rep.count(&format!("{dname}:{oc}"));
-                rep.distinct(&format!("{dname}:{tname}:{oc}:{iclass}"));
-                let cj = || json!({"case_index": case, "decoder": dname, "target": tname, "input": crate::rng::show(&input), "input_hex": crate::rng::hex(&input), "input_class": iclass});
-                match r {
-                    Err(p) => rep.violation(&format!("C08/panic:{dname}@{}", crate::report::panic_site(&p)), &format!("{dname} into {tname} panicked on {}: {p}", crate::rng::show(&input)), cj()),
-                    Ok(Out::Problem(ps)) => rep.violation(&format!("C08/bad-value:{dname}:{}", if ps[0].contains("UTF-8") { "non-utf8-string" } else { "slice-outside-input" }), &format!("{dname} into {tname} on {}: {}", crate::rng::show(&input), ps[0]), cj()),
-                    _ => {}
-                }
-                if dt > 2.0 && input.len() <= 4096 {
-                    // CPU time of this thread, not wall time; and it only counts if three more measurements of the same call agree
-                    rep.count("slow_calls_remeasured");
-                    let again: Vec<f64> = (0..3).map(|_| { let t = thread_cpu_s(); let _ = catch(|| call(&input)); thread_cpu_s() - t }).collect();
-                    let least = again.iter().cloned().fold(f64::MAX, f64::min);
-                    if least > 2.0 {
-                        rep.violation(&format!("C08/slow:{dname}"), &format!("{dname} into {tname} took {dt:.1}s of CPU time on {} bytes (re-measured: {again:.1?})", input.len()), cj());
-                    }
-                }
-                if rep.want_sample() && oc == "err" && iclass == "mutant" {
-                    rep.sample(json!({"decoder": dname, "target": tname, "input": crate::rng::show(&input), "outcome": oc}));
-                }
-            }
+            run_input(rep, case, dname, table, &input, iclass, small);
             rep.end(case);
         }
         case += args.nshards;
